@@ -85,10 +85,17 @@ func runC06(c *vf.Ctx) {
 			psrcs = append(psrcs, srcs[k])
 		}
 		// initial content
+		untimed := 0
 		for _, p := range provs {
 			for _, s := range srcs {
 				if r.Intn(3) != 0 {
 					s.set(p, 1+r.Intn(5))
+				}
+				if r.Intn(10) == 0 {
+					s.mu.Lock()
+					s.noTime[p] = true // this source never reports an advertisement time for p
+					s.mu.Unlock()
+					untimed++
 				}
 			}
 		}
@@ -122,19 +129,30 @@ func runC06(c *vf.Ctx) {
 			}
 			cancelledSinceOK := false
 			// offered returns the highest version any responding source reports for p now
+			// (records without an advertisement time count as oldest: when a responding source offers a
+			// timed record, the freshest TIMED one is what must be shown; untimedOnly tells that none is timed)
+			untimedOnly := map[peer.ID]bool{}
 			offered := func(p peer.ID) (int, bool) {
-				best, ok := 0, false
+				best, ok, timed := 0, false, false
 				for _, s := range srcs {
 					s.mu.Lock()
 					f := s.failing
 					v, has := s.recs[p]
+					nt := s.noTime[p]
 					s.mu.Unlock()
 					if !f && has {
-						if !ok || v > best {
-							best = v
-						}
 						ok = true
+						if !nt {
+							if !timed || v > best {
+								best = v
+							}
+							timed = true
+						}
 					}
+				}
+				untimedOnly[p] = ok && !timed
+				if !timed {
+					best = 0
 				}
 				return best, ok
 			}
@@ -195,7 +213,10 @@ func runC06(c *vf.Ctx) {
 						}
 						checkRecord(p, inList, label)
 						for _, pi := range []*model.ProviderInfo{inList, got} {
-							if versionOf(pi) < want {
+							if !untimedOnly[p] && pi.LastAdvertisementTime == "" {
+								fail("untimed-record-shown-although-a-timed-one-is-offered", fmt.Sprintf("%s: provider %s", label, p))
+							}
+							if !untimedOnly[p] && versionOf(pi) < want {
 								key := "stale-record-after-refresh"
 								if missOverlap {
 									key = "stale-record-after-refresh:refresh-overlapping-lookup-miss"
@@ -205,10 +226,16 @@ func runC06(c *vf.Ctx) {
 								fail(key, fmt.Sprintf("%s: provider %s shown v%d, a responding source offers v%d", label, p, versionOf(pi), want))
 							}
 						}
-						if v.visible && versionOf(inList) < v.lastVersion {
+						if v.visible && inList.LastAdvertisementTime != "" && versionOf(inList) < v.lastVersion {
 							fail("record-went-back-in-time", fmt.Sprintf("%s: provider %s v%d after v%d", label, p, versionOf(inList), v.lastVersion))
 						}
-						v.visible, v.lastVersion, v.everSeen = true, versionOf(inList), true
+						if !v.visible {
+							v.lastVersion = 0 // a new cache entry: nothing to be monotone against
+						}
+						v.visible, v.everSeen = true, true
+						if inList.LastAdvertisementTime != "" {
+							v.lastVersion = versionOf(inList)
+						}
 						v.missingFrom, v.missingLo = time.Time{}, time.Time{}
 						delete(neg, p)
 						continue
@@ -422,18 +449,21 @@ func runC06(c *vf.Ctx) {
 					v := vis[p]
 					if got != nil {
 						checkRecord(p, got, "get")
-						if v.visible && versionOf(got) < v.lastVersion {
+						if v.visible && got.LastAdvertisementTime != "" && versionOf(got) < v.lastVersion {
 							fail("record-went-back-in-time", fmt.Sprintf("Get(%s) v%d after v%d", p, versionOf(got), v.lastVersion))
 						}
 						if !v.visible && neg[p] == nil {
 							// cached by the miss path: newest among the responding sources
-							if reported && versionOf(got) < want {
+							if reported && !untimedOnly[p] && versionOf(got) < want {
 								fail("miss-fetch-not-newest", fmt.Sprintf("Get(%s) v%d, sources offer v%d", p, versionOf(got), want))
 							}
 							c.Inc("miss_fetches_positive")
 						}
+						if !v.visible {
+							v.lastVersion = 0
+						}
 						v.visible, v.everSeen = true, true
-						if versionOf(got) > v.lastVersion {
+						if got.LastAdvertisementTime != "" && versionOf(got) > v.lastVersion {
 							v.lastVersion = versionOf(got)
 						}
 					} else if !v.visible && neg[p] == nil && !reported {
@@ -509,6 +539,7 @@ func runC06(c *vf.Ctx) {
 			}
 		})
 		c.Eval(1)
+		c.Add("provider_source_pairs_without_advertisement_time", int64(untimed))
 		c.Distinct(sub, fmt.Sprint(nsrc, ttlMode, npop, preload), strings.Join(steps[:min(len(steps), 6)], ";"))
 		if c.WantSample(sub) && len(steps) > 10 {
 			c.Sample(sub, wit())
